@@ -39,12 +39,12 @@ import zlib
 from functools import lru_cache
 from typing import Any, Callable, List, Optional, Tuple
 
-from mc.clients import Client, ws_h1_handshake, ws_h2_headers
+from mc.clients import ws_h1_handshake, ws_h2_headers
 from mc.explore import V
 from mc.harness import internal_errors
 from mc.x_c10c11_ref import (OP_BIN, OP_PING, OP_TEXT, close_frame, decodable_size, expected_receive,
                              first_oversize, frame, message_frames, wire_payloads)
-from mc.x_c10c11_run import case_execute
+from mc.x_c10c11_run import case_execute, make_guard_client
 
 ID = "C10"
 LEVEL = "model_checking"
@@ -64,7 +64,7 @@ ASSUMPTIONS = [
 ]
 BOUNDS_DOC = {
     "quick": "messages<=2 (+3 unfragmented), K<=2 frames/message, <=1 ping, all 2-way splits + bytewise; sched M<=1,S<=1",
-    "thorough": "messages<=3, K<=3 frames/message (pairs/triples K<=2), <=2 pings, all 2-way splits + bytewise; "
+    "thorough": "messages<=3, K<=3 frames/message (pairs K<=2, triples mid cut only), <=2 pings, all 2-way splits + bytewise; "
                 "sched M<=2,S<=2, trio R<=1",
 }
 BUDGET = {"quick": 150, "thorough": 1500}
@@ -88,39 +88,6 @@ ENGINES = ("asyncio", "trio")
 CARRIERS = ("ws/h1", "ws/h2")
 APP = [("recv",), ("send", {"type": "websocket.accept"}), ("echo_ws",)]
 BYTEWISE_MAX = 64
-
-
-class GuardClient(Client):
-    """mc.clients.Client + the guard a real client obeys: frames are sent only once the handshake response
-    (101 / 200) was received.  ws/h1 frames are ('cmd', k, 'ws_raw', bytes)."""
-
-    def upgraded(self) -> bool:
-        if self.h1 is not None:
-            return self.h1.switched
-        st = self.h2.streams.get(1)
-        return st is not None and st["status"] == 200
-
-    def cmd_enabled(self, ev: tuple) -> bool:
-        if ev[2] == "ws_wait":  # pure guard: lets a source wait for the handshake response
-            return self.upgraded()
-        if ev[2] == "ws_raw":
-            return self.h1 is not None and self.h1.switched
-        if ev[2] == "ws_data":
-            st = self.h2.streams.get(ev[3])
-            if st is None or st["status"] != 200:
-                return False
-        return super().cmd_enabled(ev)
-
-    def command(self, ev: tuple) -> bytes:
-        if ev[2] == "ws_wait":
-            return b""
-        if ev[2] == "ws_raw":
-            return ev[3]
-        return super().command(ev)
-
-
-def make_guard_client(world: Any, k: int, opts: dict) -> Client:
-    return GuardClient(opts)
 
 
 # ---------------------------------------------------------------------------------------------
